@@ -287,7 +287,7 @@ def r65(db, ctx):
                 _, coll, nchunk = steps[0][1]
                 step_b = steps[0][2].get('', 0)
                 c0 = off.get('', 0)
-                if set(off) <= {''} and c0 >= 0 and c0 + a.width <= step_b and coll == ('p', cls[1]):
+                if set(off) <= {''} and c0 >= 0 and c0 + a.width <= step_b and K.chunk_source(coll)[0] == ('p', cls[1]):
                     n += 1
                     ctx.ok('R6.5', f, f'{a.name}: {a.width} bytes at offset {c0} of a chunk of {nchunk} elements ({step_b} bytes) of `{f.local_name(cls[1]) or cls[1]}`',
                            ['chunks_exact yields whole chunks inside the slice'])
